@@ -24,6 +24,7 @@ CLASSES_BY_KIND = {
     "NUMCAT": ["QualitativeDiscretizer", "Discretizer"],
 }
 CARVERS = ["BinaryCarver", "ContinuousCarver", "MulticlassCarver"]
+DTYPE_FAMILY = [("float32", [1.0, 2.0, 3.0]), ("int8", [-1, 0, 1]), ("uint8", [0, 1, 2]), ("Int64", [1, 2, 3]), ("float64", [-0.0, 1.0, 2.0]), ("float64", [-1.0, -0.0, 0.5])]
 
 
 def target_values(cells, nan_cell, target):
@@ -264,6 +265,14 @@ def _enumerate_cases(tier, seed, classes="discretizers"):
                         for mf in (0.34, 0.1):
                             if valid_target(cells, nan, "binary") and sum(map(sum, cells)) + (sum(nan) if nan else 0) >= 2:
                                 cases.append({"cls": cls, "kind": kind, "cells": [list(c) for c in cells], "nan": list(nan) if nan else None, "min_freq": mf, "target": "binary", "seed": seed, "companion": None, "kw": KW})
+        # unusual but accepted column dtypes (values are small integers, exactly representable in every dtype)
+        for xdtype, values in DTYPE_FAMILY:
+            tabs, tr = space.construct(list(alpha), 2, min(3, len(values)), ordered=True)
+            for cells in tabs[:: 7 if tier == "quick" else 1]:
+                for cls in CLASSES_BY_KIND["QNT"]:
+                    for mf in (0.34, 0.1):
+                        if valid_target(cells, None, "binary"):
+                            cases.append({"cls": cls, "kind": "QNT", "cells": [list(c) for c in cells], "nan": None, "min_freq": mf, "target": "binary", "seed": seed, "companion": None, "xdtype": xdtype, "values": values[: len(cells)]})
         # several id-like columns dropped together
         for kind in ("QNT", "CAT"):
             tabs, tr = space.construct(list(alpha), 2, 2, ordered=(kind != "CAT"))
@@ -295,6 +304,14 @@ def _enumerate_cases(tier, seed, classes="discretizers"):
                             continue
                         for mf in mfs if len(cells) <= 3 else [0.34, 0.1]:
                             cases.append({"cls": cls, "kind": kind, "cells": [list(c) for c in cells], "nan": list(nan) if nan else None, "min_freq": mf, "target": target, "seed": seed, "companion": None})
+            if kind == "QNT":  # unusual but accepted column dtypes
+                for xdtype, values in DTYPE_FAMILY:
+                    tabsd, _ = space.construct(list(alpha), 2, min(3, len(values)), ordered=True)
+                    for cells in tabsd[:: 7 if tier == "quick" else 2]:
+                        for cls in CARVERS:
+                            target = target_for(cls)
+                            if valid_target(cells, None, target):
+                                cases.append({"cls": cls, "kind": kind, "cells": [list(c) for c in cells], "nan": None, "min_freq": 0.1, "target": target, "seed": seed, "companion": None, "xdtype": xdtype, "values": values[: len(cells)]})
             # companions with carvers
             tabs2, _ = space.construct(list(alpha), 2, 2, ordered=(kind != "CAT"))
             for cells in tabs2:
